@@ -584,3 +584,8 @@ LEVEL_NOTE = ("relaxed_ok of the optimiser output is a hypothesis (C07/C08); ran
               "one known finding (SPE-search without threshold violators raises AssertionError)")
 TECHNIQUE = "Coq proof (induction over the component list, composition of C09/C10 theorems) + in-Coq differential correspondence"
 DESIGN_REF = "DESIGN.md section 7, C01"
+
+# --- second build round: additions to the claimed level
+LEVEL_TEXT += ("; the probability vector of the task draw is regenerated from the source on every run (py2v unit GenSoftmax) and proved to be a distribution "
+               "with p_i = exp(c_j - c_i) p_j, hence proportional to exp(-cost) and monotone in the cost")
+TECHNIQUE += " + Coquelicot/Reals proofs on a definition regenerated from source (translator) for the task-draw probabilities"
